@@ -148,6 +148,12 @@ def replay_chain(chk, case):
         if kind == "S" and ps is not None:
             if abs(ps.sum() - 1) > 1e-9 or (ps < -1e-12).any():
                 chk.violation("ensemble_probabilities:%s" % kinds, "ensemble probabilities %s" % ps, dict(chain=chain))
+            # a state ensemble keeps the multi-index structure of the measurements that produced it (C16): one axis per
+            # measurement process, in time order - for every bracketing (merged axes are accepted for POVMs only)
+            if tuple(int(x) for x in shape) != tuple(int(x) for x in want_shape):
+                chk.violation("ensemble_shape:%s:%s" % (kinds, tree_str(tr)),
+                              "bracketing %s of chain %s: the ensemble reports outcome shape %s, the measurements of the chain have shape %s" % (tree_str(tr), names, shape, want_shape),
+                              dict(chain=chain, tree=tree_str(tr)))
             # normalised post states, accessed by multi-index, belong to the probability at that index (C16)
             if len(shape) >= 1:
                 for mi in itertools.product(*[range(s) for s in shape]):
@@ -203,17 +209,23 @@ def replay_gen(chk, case):
         if len(hss) != len(want) or any(not coords.close(a, b, 1e-8) for a, b in zip(hss, want)):
             chk.violation("generate_mprocess:value:mode%d:%s" % (mode, name), "generated measurement process differs from the exact instrument", dict(case=case))
     # relational clauses that hold for every POVM: induced POVM, physicality, statistics
-    back = mp.to_povm()
-    if any(not coords.close(coords.h_of_vec(SYS, v), y, 1e-8) for v, y in zip(back.vecs, ys)):
-        chk.violation("generate_mprocess:to_povm:mode%d:%s" % (mode, name), "to_povm(generate_mprocess(P)) != P", dict(case=case))
+    try:
+        back = mp.to_povm()
+        if any(not coords.close(coords.h_of_vec(SYS, v), y, 1e-8) for v, y in zip(back.vecs, ys)):
+            chk.violation("generate_mprocess:to_povm:mode%d:%s" % (mode, name), "to_povm(generate_mprocess(P)) != P", dict(case=case))
+    except Exception as e:
+        chk.violation("generate_mprocess:to_povm:exception:mode%d:%s" % (mode, name), "to_povm() of the generated measurement process raised %r" % e, dict(case=case))
     if not mp.is_physical():
         chk.violation("generate_mprocess:unphysical:mode%d:%s" % (mode, name), "generated measurement process is not physical", dict(case=case))
     from quara.objects.operators import compose_qoperations
     rho = coords.state_from_h(SYS, np.array([0.5, 0.125, -0.25, 0.25]), is_physicality_required=True)
-    ens = compose_qoperations(mp, rho)
-    born = compose_qoperations(povm, rho)
-    if not coords.close(np.asarray(ens.prob_dist.ps), np.asarray(born.ps), 1e-9):
-        chk.violation("generate_mprocess:statistics:mode%d:%s" % (mode, name), "outcome probabilities differ from the POVM's Born rule", dict(case=case))
+    try:
+        ens = compose_qoperations(mp, rho)
+        born = compose_qoperations(povm, rho)
+        if not coords.close(np.asarray(ens.prob_dist.ps), np.asarray(born.ps), 1e-9):
+            chk.violation("generate_mprocess:statistics:mode%d:%s" % (mode, name), "outcome probabilities differ from the POVM's Born rule", dict(case=case))
+    except Exception as e:
+        chk.violation("generate_mprocess:statistics:exception:mode%d:%s" % (mode, name), "%r" % e, dict(case=case))
 
 
 def run(chk):
